@@ -43,7 +43,7 @@ class Store(object):
         assert strategy in STRATEGIES
         self.strategy = strategy
         self.force = list(force)
-        self.link_keys = tuple(link_keys)   # attribute keys that carry the links (only for the statistics)
+        self.link_keys = tuple(link_keys)   # (label, attribute key that carries the links); only for the statistics
         self.feats = {}     # key -> Entry        (insertion order = filing order)
         self.spawn = {}     # key -> [fresh keys filed because of this key]   ('merge' only)
         self.n = {}         # key -> last n used for '<key>_n'
@@ -96,9 +96,9 @@ class Store(object):
             self._log("ignored")
             return None
         if st == "replace":
-            for lk in self.link_keys:
+            for label, lk in self.link_keys:
                 if self.feats[key].attrs.get(lk) != dict((k, v) for k, v in rec["attrs"]).get(lk):
-                    self._stat("replace: the replacement's %s link differs from the replaced feature's" % lk)
+                    self._stat("replace: the replacement names a different %s parent" % label)
             self.feats[key] = Entry(rec, (), arrival)     # keeps the last
             self._log("replaced")
             return key
